@@ -134,7 +134,7 @@ def confirm_group(prop, tier, seed, nshards, shard, case, keys):
     """Re-executes one case in a fresh process. Returns {key: True | "prefix" | False} (missing = could not decide)."""
     sp = ShardProc(prop, tier, seed, shard, nshards, ["--case", str(case)])
     res, _, timed_out, rc, log = sp.finish(time.monotonic() + 600)
-    if res is None:
+    if res is None or res.get("fatal"):
         return {}
     seen = {v["key"] for v in res.get("violations", [])}
     status = {k: True for k in keys if k in seen}
@@ -305,8 +305,8 @@ def replay(prop, meta, path):
     extra = ["--upto" if data.get("needs_prefix") else "--case", str(data["case"]), "--verbose"]
     sp = ShardProc(prop, data["tier"], data["seed"], data["shard"], data["nshards"], extra)
     res, _, timed_out, rc, log = sp.finish(time.monotonic() + 1800)
-    if res is None:
-        print(f"INCONCLUSIVE property={prop} reason=replay-crashed\n{log}")
+    if res is None or res.get("fatal"):
+        print(f"INCONCLUSIVE property={prop} reason=replay-crashed\n{log}\n{(res or {}).get('fatal', '')}")
         return 2
     hit = [v for v in res["violations"] if v["key"] == data["key"]]
     for v in res["violations"]:
